@@ -15,6 +15,7 @@ Stages (see `run`):
     combinators over toy rewrite rules) with the implementation on the same inputs.
 """
 import inspect
+import functools
 import json
 import os
 from fractions import Fraction
@@ -369,6 +370,15 @@ def build_cv(env, ce, hyps):
         for p in pts:
             hyps.update(p.hyps)
         return C.rewr_conv(ce[1], sym=ce[2], conds=pts)
+    if k == "rewrh":        # ["rewrh", name | ["pt", eq, [hyp..]], sym, [[prop, [hyp..]] ..]]: conditions `hyps |- prop`
+        pts = [env.ProofTerm.sorry(env.Thm(jt(env, c[0]), *[jt(env, h) for h in c[1]])) for c in ce[3]]
+        for p in pts:
+            hyps.update(p.hyps)
+        rule = ce[1]
+        if not isinstance(rule, str):
+            rule = env.ProofTerm.sorry(env.Thm(jt(env, rule[1]), *[jt(env, h) for h in rule[2]]))
+            hyps.update(rule.hyps)
+        return C.rewr_conv(rule, sym=ce[2], conds=pts)
     if k == "replace":
         eq = env.term.Eq(jt(env, ce[1]), jt(env, ce[2]))
         if ce[3] == "assume":
@@ -1708,6 +1718,193 @@ def stage_corr_conv(ctx, env):
                 judge(env, ctx, "logic.conv.%s" % ce[0], model_ce_to_impl(ce), t)
 
 
+# ---------------------------------------------------------------------- combinators with hypotheses
+COND_RULES = ["min_simp1", "sub_add", "Suc_Pre", "div_refl", "mod_lt", "div_lt", "nat_le_zero"]
+
+
+def rule_parts(env, rule, sym):
+    """(hyps, As, lhs, rhs) of the rewrite theorem of a "rewrh" leaf."""
+    if isinstance(rule, str):
+        th = env.theory.get_theorem(rule)
+    else:
+        th = env.Thm(jt(env, rule[1]), *[jt(env, h) for h in rule[2]])
+    As, Cc = th.prop.strip_implies()
+    l, r = Cc.lhs, Cc.rhs
+    if sym:
+        l, r = r, l
+    return list(th.hyps), As, l, r
+
+
+def ceh_to_sexp(env, codec, ce):
+    k = ce[0]
+    if k == "rewrh":
+        hs, As, l, r = rule_parts(env, ce[1], ce[2])
+        pv = {}
+        asms = [codec.pat(a, pv) for a in As]
+        return ["rewrc", [codec.enc(h) for h in hs], asms, codec.pat(l, pv), codec.pat(r, pv),
+                [[[codec.enc(jt(env, h)) for h in c[1]], codec.enc(jt(env, c[0]))] for c in ce[3]]]
+    if k in ("all", "no"):
+        return k
+    return [{"top_sweep": "topsweep"}.get(k, k)] + [ceh_to_sexp(env, codec, c) for c in ce[1:]]
+
+
+def gen_cond_leaf(env, rng, g, scope):
+    """A conditional rewrite with its conditions, and an instance of its left side: mostly the
+    conditions fit the instance; near misses (swapped / other arguments, wrong number of conditions)
+    and conditions that carry hypotheses of their own (possibly about the bound variables)."""
+    T = env.term
+    r = rng.random()
+    a, b = g.N(rng.randint(0, 1), scope), g.N(rng.randint(0, 1), scope)
+
+    def extra():
+        pool = [env.nat.less_eq(env.v["k"], env.v["m"]), env.v["A"], env.v["P"](env.v["n"]), T.Eq(a, b)]
+        pool += [env.nat.less_eq(u, env.v["k"]) for u in scope] + [env.v["P"](u) for u in scope]
+        if scope:
+            pool.append(T.Forall(scope[0], env.v["P"](scope[0])))        # bound: not an occurrence
+        return [tj(h) for h in rng.sample(pool, rng.choice([0, 0, 1, 1, 2]))]
+
+    if r < 0.12:        # a supplied equation with hypotheses of its own as the rule
+        eq = T.Eq(a, b)
+        return ["rewrh", ["pt", tj(eq), extra()], rng.random() < 0.3, []], a
+    if r < 0.22:        # unconditional theorem
+        nm, sym = rng.choice(MODEL_RULES[:4] + MODEL_RULES[5:8])
+        th = env.theory.get_theorem(nm)
+        return ["rewrh", nm, sym, []], None
+    nm = rng.choice(COND_RULES)
+    th = env.theory.get_theorem(nm)
+    As, Cc = th.prop.strip_implies()
+    svs = T.get_svars(As + [Cc]) if hasattr(T, "get_svars") else []
+    inst = {}
+    for sv in svs:
+        inst[sv.name] = rng.choice([a, b, g.N(0, scope)])
+    from kernel.term import Inst
+    ii = Inst(**inst)
+    conds = [[tj(A.subst(ii)), extra() if rng.random() < 0.6 else []] for A in As]
+    lhs = Cc.lhs.subst(ii)
+    q = rng.random()
+    if q < 0.12 and conds:          # near miss: the condition is about other arguments
+        inst2 = dict(inst)
+        k0 = rng.choice(sorted(inst2))
+        inst2[k0] = g.N(1, scope)
+        conds[0][0] = tj(As[0].subst(Inst(**inst2)))
+    elif q < 0.17:
+        conds = conds[:-1]          # wrong number of conditions
+    elif q < 0.22:
+        conds = conds + [[tj(env.v["A"]), []]]
+    return ["rewrh", nm, False, conds], lhs
+
+
+def gen_ceh(env, rng, g, depth, leaves, scope, noloop=False):
+    unary = ["abs", "try", "comb1", "arg", "fun", "arg1", "binop", "repeat", "sub", "bottom", "topsweep"]
+    if depth <= 0 or rng.random() < 0.35:
+        r = rng.random()
+        if r < 0.06:
+            return ["all"]
+        if r < 0.1:
+            return ["no"]
+        leaf, inst = gen_cond_leaf(env, rng, g, scope)
+        if inst is not None:
+            leaves.append(inst)
+        r = rng.random()
+        return leaf if r < 0.3 else ["try", leaf] if r < 0.6 else ["topsweep", leaf] if r < 0.8 else ["bottom", leaf]
+    k = rng.choice(unary + ["comb", "then", "else", "every", "top", "top", "abs"])
+    sub = lambda: gen_ceh(env, rng, g, depth - 1, leaves, scope, noloop=noloop or k in ("repeat", "top", "bottom"))  # noqa
+    if k in unary:
+        return [k, sub()]
+    if k in ("comb", "then", "else"):
+        return [k, sub(), sub()]
+    return [k] + [sub() for _ in range(rng.randint(0 if k == "every" else 1, 3))]
+
+
+def ceh_to_impl(ce):
+    k = ce[0]
+    if k in ("rewrh", "all", "no"):
+        return ce
+    return [{"topsweep": "top_sweep"}.get(k, k)] + [ceh_to_impl(c) for c in ce[1:]]
+
+
+def stage_corr_convh(ctx, env):
+    """The combinators over CONDITIONAL rewrite rules against `interpH` (HypModel.lean): the whole
+    sequent -- set of hypotheses, left side, right side -- or the error class; and the property
+    (left side is the input, hypotheses among the supplied ones, proof accepted) on every result."""
+    rng = ctx.rng("corr/convh")
+    n = ctx.scale(220, 6000)
+    T = env.term
+    cases, lines = [], []
+    for _ in range(n):
+        g = BGen(env, rng)
+        scope = tuple(rng.choice([env.v["m"], env.v["n"], g.bvar()]) for _ in range(rng.choice([0, 1, 1, 2])))
+        leaves = []
+        ce = gen_ceh(env, rng, g, rng.randint(0, 3), leaves, scope)
+        # a term containing the instances, under the binders of `scope`
+        parts = leaves[:3] + [g.N(rng.randint(0, 2), scope) for _ in range(rng.choice([0, 1, 1, 2]))]
+        rng.shuffle(parts)
+        t = None
+        for pz in parts:
+            if pz.get_type() != env.T["nat"]:
+                continue
+            w = rng.choice([pz, env.v["f"](pz), env.nat.Suc(pz)])
+            t = w if t is None else rng.choice([t + w, env.v["g"](t, w), w * t])
+        if t is None:
+            t = g.N(2, scope)
+        for u in reversed(scope):
+            r = rng.random()
+            if r < 0.5:
+                t = T.Lambda(u, t)
+            elif r < 0.7:
+                t = T.Lambda(u, t)(g.N(1)) if t.get_type() == env.T["nat"] else T.Lambda(u, t)
+            if rng.random() < 0.3 and t.get_type() == env.T["nat"]:
+                t = env.v["f"](t)
+        codec = TermCodec(env)
+        try:
+            line = sexp.dumps(["convh", 400, ceh_to_sexp(env, codec, ce), codec.enc(t)])
+        except ValueError:
+            continue
+        hyps = set()
+        try:
+            cv = build_cv(env, ceh_to_impl(ce), hyps)
+            with time_limit(20):
+                pt = cv.get_proof_term(t)
+            impl = ("ok", frozenset(pt.hyps), pt.prop.lhs, pt.prop.rhs)
+        except Timeout:
+            continue
+        except RecursionError:
+            continue
+        except Exception as e:  # noqa
+            impl = ("err", ERRMAP.get(type(e).__name__, type(e).__name__))
+        cases.append((ce, t, impl, codec, hyps))
+        lines.append(line)
+    out = ctx.lean_driver(EXE, lines) if lines else []
+    if out is None:
+        ctx.broken("correspondence:c10:driver", "model driver unavailable")
+        return
+    nd = 0
+    for (ce, t, impl, codec, hyps), m in zip(cases, out):
+        ms = sexp.loads(m)
+        if ms == "bad-op":
+            model = ("bad-op",)
+        elif ms[0] == "ok":
+            model = ("ok", frozenset(codec.dec(h) for h in ms[1]), codec.dec(ms[2]), codec.dec(ms[3]))
+        else:
+            model = ("err", ms[1])
+        nontriv = impl[0] == "ok" and impl[2] != impl[3]
+        ctx.case(("convh-corr", json.dumps(ce), str(tj(t))), nontrivial=nontriv)
+        agree = impl == model
+        ctx.count("corr:convh:%s:%s" % (ce[0], "agree" if agree else "DISAGREE"))
+        ctx.count("corr:convh:outcome:%s" % ((("ok-with-hyps" if impl[1] else "ok-changed") if nontriv else "ok-refl") if impl[0] == "ok" else "err-" + impl[1]))
+        # the property on the implementation's own result
+        if impl[0] == "ok" and (nontriv or impl[1]):
+            judge(env, ctx, "logic.conv.%s" % ceh_to_impl(ce)[0], ceh_to_impl(ce), t)
+        if not agree:
+            nd += 1
+            if nd <= 3:
+                ctx.broken("correspondence:c10:convh", "%s on %s: impl=%s model=%s" % (
+                    json.dumps(ce), t, [str(x) if not isinstance(x, frozenset) else sorted(map(str, x)) for x in impl],
+                    [str(x) if not isinstance(x, frozenset) else sorted(map(str, x)) for x in model]))
+                ctx.coverage["disagreements_checked"] += 1
+                judge(env, ctx, "logic.conv.%s" % ceh_to_impl(ce)[0], ceh_to_impl(ce), t)
+
+
 # ====================================================================== independent polynomial evaluator
 class Poly:
     """Exact-rational multivariate polynomials, written for this harness only (nothing of util/poly.py
@@ -2782,6 +2979,123 @@ def stage_history(ctx, env):
         run_history(env, ctx, steps)
 
 
+# ====================================================================== look-alike atoms; theories in sequence
+def lookalike_atoms(env, rng, ty):
+    """Two DIFFERENT atoms of type `ty` that are spelled the same: the same names and structure, other
+    types inside (`fq q` with q :: nat and with q :: real).  Legal terms; every order on terms that the
+    normalisers sort with has to tell them apart."""
+    T, TT = env.term, env.T
+    fn, vn = rng.choice(["fq", "gq"]), rng.choice(["q", "w"])
+    a_ty, b_ty = rng.sample(["nat", "int", "real"], 2)
+    shape = rng.choice(["app", "app", "app2", "var-under-fun"])
+
+    def mk(at):
+        v = T.Var(vn, TT[at])
+        if shape == "app":
+            return T.Var(fn, env.TFun(TT[at], TT[ty]))(v)
+        if shape == "app2":
+            return T.Var(fn, env.TFun(TT[at], TT[at], TT[ty]))(v, v)
+        return T.Var(fn, env.TFun(env.TFun(TT[at], TT[at]), TT[ty]))(T.Var("hq", env.TFun(TT[at], TT[at])))
+    return mk(a_ty), mk(b_ty)
+
+
+def stage_lookalike(ctx, env):
+    """Canonicity and idempotence on rearrangements whose atoms differ only in types."""
+    T = env.term
+    n = ctx.scale(10, 200)
+    for label, (ce, ty, ops) in NORMALISERS.items():
+        rng = ctx.rng("lookalike/" + label)
+        for _ in range(n):
+            A, B = lookalike_atoms(env, rng, ty)
+            v = env.v[rng.choice(TYVARS[ty])]
+            fold = lambda op, xs: functools.reduce(op, xs)      # noqa
+            mul, add = (lambda x, y: x * y), (lambda x, y: x + y)
+            k = rng.randint(0, 3)
+            if k == 0:
+                ms = [A, B] + ([v] if rng.random() < 0.4 else [])
+                m2 = list(ms)
+                while m2 == ms:
+                    rng.shuffle(m2)
+                t1, t2 = fold(mul, ms), fold(mul, m2)
+            elif k == 1:
+                ms = [A, B] + ([v] if rng.random() < 0.4 else []) + ([A * v] if rng.random() < 0.3 else [])
+                m2 = list(ms)
+                while m2 == ms:
+                    rng.shuffle(m2)
+                t1, t2 = fold(add, ms), fold(add, m2)
+            elif k == 2:
+                t1, t2 = (A + B) * v, v * B + v * A
+            else:
+                t1, t2 = A * B + B * A, T.Number(env.T[ty], 2) * (B * A)
+            ctx.count("lookalike:%s" % label.split(".")[-1])
+            canon_pair(env, ctx, label, ce, t1, t2, "rearrangements over atoms that differ only in types")
+    for label, (ce, op, kind) in PROP_NORMALISERS.items():
+        rng = ctx.rng("lookalike/" + label)
+        for _ in range(n):
+            A, B = lookalike_atoms(env, rng, "bool")
+            o = op if op != "both" else rng.choice(["and", "or"])
+            ms = [A, B] + ([env.v[rng.choice("ABCD")]] if rng.random() < 0.5 else []) + ([T.Not(A)] if rng.random() < 0.3 and kind == "literal" and False else [])
+            m2 = list(ms)
+            while m2 == ms:
+                rng.shuffle(m2)
+            mk = (lambda xs: functools.reduce(lambda x, y: T.And(x, y) if o == "and" else T.Or(x, y), xs))
+            ctx.count("lookalike:%s" % label.split(".")[-1])
+            canon_pair(env, ctx, label, ce, mk(ms), mk(m2), "the same member set, members that differ only in types")
+
+
+THY_HISTORY_RULES = ["mult_comm", "add_comm", "distrib_l", "mult_1_left", "add_assoc", "mult_assoc", "add_0_right", "mult_0_right"]
+
+
+def thy_history_case(env, ctx, name, wrap, record=True):
+    """One theorem name requested by FRESH rewr_conv objects under theories in sequence: the full
+    theory, the theory `nat` cut off just before that theorem (a `limit` context, as the server and the
+    tests use), the full theory again.  Each result is judged in the theory it was requested in: its own
+    error, or an equation about the term whose proof that theory's checker accepts."""
+    from logic import context
+    T = env.term
+    natvars = {k: v for k, v in VARS.items() if v in ("nat", "nat => nat", "bool")}
+    th = env.theory.get_theorem(name)
+    m, n, k = env.v["m"], env.v["n"], env.v["k"]
+    from kernel.term import Inst
+    svs = T.get_svars(th.prop)
+    pool = [m, n, k, m + n, T.Nat(2)]
+    lhs = th.prop.lhs.subst(Inst(**{sv.name: pool[i % len(pool)] for i, sv in enumerate(svs)}))
+    t = env.v["f"](lhs) if wrap != "bare" else lhs
+    leaf = ["rewr", name, False, [], "sorry"]
+    ce = leaf if wrap == "bare" else [wrap, leaf]
+    bad = None
+    try:
+        for phase in ("full", "limited", "full"):
+            if phase == "limited":
+                context.set_context("nat", limit=("thm", name), vars=natvars)
+                if env.theory.thy.has_theorem(name):
+                    break
+            o = judge(env, ctx, "logic.conv.rewr_conv", ce, t, record=False)
+            ctx.count("thy-history:%s:%s:%s" % (phase, wrap, o.kind.split(":")[0] if not o.kind.startswith("violation") else o.kind))
+            if o.kind.startswith("violation"):
+                bad = (phase, o)
+                break
+            if phase == "limited":
+                context.set_context(THEORY, vars=VARS)
+    finally:
+        context.set_context(THEORY, vars=VARS)
+    if bad and record:
+        phase, o = bad
+        ctx.violation("logic.conv.rewr_conv:%s-after-use-in-other-theory" % o.kind.split(":", 1)[1],
+                      "rewr_conv(%r) (through %s) on %s, requested in the %s theory after a use in the other one: %s"
+                      % (name, wrap, t, phase, o.detail), {"kind": "thy-history", "name": name, "wrap": wrap})
+    return bad is not None
+
+
+def stage_thy_history(ctx, env):
+    rng = ctx.rng("thy-history")
+    for _ in range(ctx.scale(6, 60)):
+        name = rng.choice(THY_HISTORY_RULES)
+        wrap = rng.choice(["bare", "try", "top", "bottom", "top_sweep"])
+        ctx.case(("thy-history", name, wrap))
+        thy_history_case(env, ctx, name, wrap)
+
+
 # ====================================================================== entry points
 def run(ctx):
     ctx.coverage["rule"] = (
@@ -2796,16 +3110,18 @@ def run(ctx):
         "schematic), nested binders with equal names, a rule's left side under the binder; for abs/top/bottom/top_sweep/sub/"
         "beta_norm conversions, sort_conj/sort_disj and int_norm_conv; judged by the oracle and (combinators) by the Lean model, whose "
         "codec opens binders with names of its own.")
-    ok = ctx.lean_props(["Holpy.C10.Props", "Holpy.C10.PropsPoly", "Holpy.C10.PropsPolySem", "Holpy.C10.PropsNatPoly", "Holpy.C10.PropsInt"], exes=[EXE])
+    ok = ctx.lean_props(["Holpy.C10.Props", "Holpy.C10.PropsPoly", "Holpy.C10.PropsPolySem", "Holpy.C10.PropsNatPoly", "Holpy.C10.PropsInt", "Holpy.C10.PropsHyp"], exes=[EXE])
     if ctx.tier == "thorough" and ok:
-        ctx.lean_check_modules(["Holpy.C10.Props", "Holpy.C10.PropsPoly", "Holpy.C10.PropsPolySem", "Holpy.C10.PropsNatPoly", "Holpy.C10.PropsInt"])
+        ctx.lean_check_modules(["Holpy.C10.Props", "Holpy.C10.PropsPoly", "Holpy.C10.PropsPolySem", "Holpy.C10.PropsNatPoly", "Holpy.C10.PropsInt", "Holpy.C10.PropsHyp"])
     ctx.coverage["trusted_base"] += [
         "harness/props/c10.py: generators, term codec, ranking of members/atoms by the implementation's own term_ord.fast_compare",
         "kernel.theory.check_proof is the judge of 'checker-accepted' (check_level=0: every macro with an expansion is expanded)",
         "level-0 macros (nat_eval, int_eval, real_eval, real_norm, int_const_ineq, real_const_eq ...) are trusted by the checker (C05)"]
     ctx.assumptions += [
         "the atom/member order handed to the model is a strict total order (C03 cmp_total); the model takes it as Nat order on ranks",
-        "hypotheses of conversions are judged on the implementation only (the model's equations carry no hypotheses)",
+        "hypotheses: the model HypModel.lean tracks them through the combinators and conditional rewr_conv (first-order, "
+        "monomorphic rules; rule hypotheses without schematic variables); for every other Conv class they are judged on the "
+        "implementation only",
         "nat subtraction, nat powers and function applications are opaque atoms of the nat normaliser; real powers with "
         "non-natural exponents are outside the canonicity check"]
     env = Env(ctx)
@@ -2819,9 +3135,12 @@ def run(ctx):
     ctx.log("evaluator pairs done")
     stage_clash(ctx, env)
     stage_history(ctx, env)
+    stage_thy_history(ctx, env)
+    stage_lookalike(ctx, env)
     ctx.log("histories done")
     stage_corr_acnorm(ctx, env)
     stage_corr_conv(ctx, env)
+    stage_corr_convh(ctx, env)
     stage_corr_poly(ctx, env)
     stage_corr_int(ctx, env)
     stage_corr_bodycmp(ctx, env)
@@ -2962,6 +3281,8 @@ def replay_one(ctx, env, r):
             ctx.violation("%s:identifies-different-polynomials" % r["label"], "same normal form %s for different polynomials" % o1.rhs, r)
     elif k == "history":
         run_history(env, ctx, r["steps"])
+    elif k == "thy-history":
+        thy_history_case(env, ctx, r["name"], r["wrap"])
     elif k == "int_eq":
         int_eq_judge(env, ctx, jt(env, r["t1"]), jt(env, r["t2"]), r["equal"])
 
@@ -2990,6 +3311,21 @@ MANIFEST = {
     "text": "PROVED IN LEAN (about executable models tied to the code by differential runs). "
             "(1) Combinators: conv_lhs / conv_lhs_combinators / conv_lhs_needs_hypothesis -- every nesting of then/else/try/"
             "combination/arg/fun/arg1/binop/abs/sub/repeat/bottom/top/top_sweep returns an equation whose left side is the input. "
+            "(1h) The same combinators WITH HYPOTHESES (HypModel.lean: a conversion returns a sequent hyps |- lhs = rhs; Thm.transitive "
+            "/ combination take the union, the reflexive short cuts of ProofTerm.transitive and combination_conv drop a premise "
+            "with its hypotheses, Thm.abstraction refuses a bound variable free in a hypothesis -- ConvException from abs_conv, "
+            "InvalidDerivationException through top_conv / top_sweep_conv --, rewr_conv(pt, conds) for a first-order rule "
+            "H |- A1 --> .. --> An --> l = r: number of conditions, first_order_match_list on the conditions then the left side, "
+            "unmatched variables, result hypotheses = H + those of every condition): conv_hyps_supplied (every nesting returns a "
+            "sequent about the given term whose hypotheses are all among the hypotheses of the supplied rewrite theorems and "
+            "condition proof terms), conv_hyps_combinators (combinator by combinator for arbitrary argument conversions that keep "
+            "to a set S), rewr_conv_hyps (exactly H + condition hypotheses, only with the right number of conditions), "
+            "abs_conv_hyps_closed (abs_conv never returns a hypothesis with the bound variable free), conv_hyps_needs_hypothesis. "
+            "Tied by the convh stream: random nestings over conditional theorems of nat (min_simp1, sub_add, Suc_Pre, div_refl, "
+            "mod_lt, div_lt, nat_le_zero), unconditional ones and supplied equations with hypotheses, conditions that fit / near-miss "
+            "/ wrong number, conditions carrying hypotheses of their own incl. ones about the variables bound in the term; model and "
+            "real code compared on the whole sequent (SET of hypotheses, lhs, rhs) or the error class, and every real result "
+            "judged by the property oracle (lhs, hypotheses within the supplied, checker). "
             "(2) logic.conj_norm / disj_norm: conjNorm_canonical, disjNorm_canonical, conjNorm_idem, disjNorm_idem, conjNorm_sound, "
             "disjNorm_sound (any strict total order). "
             "(3) The polynomial layer util/poly.py (collect_pairs, Monomial, Polynomial +, *, scale, neg, -, **, compare_fst order) "
@@ -3049,13 +3385,22 @@ MANIFEST = {
             "logic/auto.py, logic/conv.py, data/real.py, data/nat.py, data/integer.py is found by introspection): the same term "
             "normalised with and without conditions in varying orders by auto_conv, real_norm_comparison, combine_atom -- every "
             "result judged on its own (lhs, hypotheses within ITS conditions, checker) and compared with what the same call "
-            "returns from a cleared state.",
+            "returns from a cleared state. THEORIES IN SEQUENCE: a theorem name requested by fresh rewr_conv objects (bare / try / top / "
+            "bottom / top_sweep) in the full theory, in nat cut off before that theorem (limit context), and in the full theory "
+            "again -- each result judged in the theory it was requested in (own error, or checker-accepted there). LOOK-ALIKE "
+            "ATOMS: canonicity and idempotence of all nine normalisers on rearrangements whose atoms are spelled the same and "
+            "differ only in the types inside (fq q at q::nat / q::real).",
     "note": "Outside the modelled fragment: of_nat, division by "
             "non-constants, real powers, nat truncated subtraction (atoms). int: from_poly writes powers that int's convert_to_poly "
             "reads as atoms, so from_poly o convert_to_poly is only claimed stable for reals (and ints without power atoms). "
             "Atoms are ranks under term_ord.fast_compare (C03) -- the model's order on atoms is the order on ranks. "
             "The accepted/refused histogram of every decision procedure is in evidence coverage.decision_procedures. The "
-            "combinator model's equations carry no hypotheses. Trusted: Lean kernel + propext/Classical.choice/Quot.sound, the "
+            "hypothesis model covers the combinators and first-order monomorphic rewr_conv with conditions (rule hypotheses free of "
+            "schematic variables; type instantiation, beta/eta fix-up of higher-order rules and every other Conv class's "
+            "hypotheses are judged on the implementation only). That the supplied conditions are instances of the rule's "
+            "assumptions (so implies_elim applies) is enforced by the model's matching but not stated as a theorem. int "
+            "canonicity holds on fragI only (no exponent 0, powers of atoms); proplogic.norm_full canonicity is oracle-checked, "
+            "not proved; of_nat / nat truncated subtraction are still atoms of the models. Trusted: Lean kernel + propext/Classical.choice/Quot.sound, the "
             "generators and the evaluator, kernel.theory.check_proof as the acceptance judge (level-0 macros trusted, see C05).",
     "design_ref": "DESIGN.md 4/C10, 8.6, 8.10",
 }
